@@ -84,6 +84,7 @@ def preferred_literal(it: Item, v: Variant):
 def render_strings(k, it: Item, meta, cfg, extra_derives=(), strum_path="strum"):
     derives = list(meta.get("derives", []))
     dl = ["%s::%s" % (strum_path, d) if d in STRUM_DERIVES else d for d in derives] + list(extra_derives)
+    dl += ["%s::%s" % (strum_path, d) for d in meta.get("silent_derives", [])]
     for std in ("Debug", "Clone", "PartialEq"):
         if std not in dl:
             dl.append(std)
